@@ -42,6 +42,9 @@ def items(tier, seed):
     for u in ("m", "degC", "psi"):
         out.append({"k": "aux_exotic_values", "u": u})
     out.append({"k": "cat_fractional_default"})
+    for hist in ("late_default_category", "clear_reconfigure"):
+        for first in ("value_first", "tuple", "obtain"):
+            out.append({"k": "history", "h": hist, "first": first})
     for cap_kind in ("unknown", "known_unit", "derived"):
         out.append({"k": "captioned", "q": cap_kind})
     out[0]["canary"] = True
@@ -74,6 +77,42 @@ def run(cfg, V):
             except Exception as e:  # noqa
                 return {"nocat_exc": type(e).__name__}
             return {"nocat_exc": None}
+        if cfg["k"] == "history":
+            # a unit whose default category changes over the life of ONE database object: declared before the category is registered, or re-configured after Clear()
+            from barril.units import UnitDatabase
+
+            sdb = UnitDatabase()
+
+            def first_use():
+                try:
+                    {"value_first": lambda: Scalar(w, "in"), "tuple": lambda: Scalar((w, "in")), "obtain": lambda: ObtainQuantity("in")}[cfg["first"]]()
+                except Exception:  # noqa - being refused at this point is fine
+                    pass
+
+            with pushed(sdb):
+                sdb.AddUnitBase("length", "meters", "m")
+                if cfg["h"] == "late_default_category":
+                    sdb.AddUnit("length", "inches", "in", lambda t: t * 39.37, lambda t: t / 39.37, default_category="pipe diameter")
+                    sdb.AddCategory("length", "length")
+                    first_use()
+                    sdb.AddCategory("pipe diameter", "length", default_unit="in")
+                else:
+                    sdb.AddUnit("length", "inches", "in", lambda t: t * 39.37, lambda t: t / 39.37, default_category="length")
+                    sdb.AddCategory("length", "length")
+                    sdb.AddCategory("pipe diameter", "length", default_unit="in")
+                    first_use()
+                    sdb.Clear()
+                    sdb.AddUnitBase("length", "meters", "m")
+                    sdb.AddUnit("length", "inches", "in", lambda t: t * 39.37, lambda t: t / 39.37, default_category="pipe diameter")
+                    sdb.AddCategory("length", "length")
+                    sdb.AddCategory("pipe diameter", "length", default_unit="in")
+                c = sdb.GetDefaultCategory("in")
+                q = ObtainQuantity("in", c)
+                sc = [Scalar(v, "in"), Scalar(v, "in", c), Scalar(c, v, "in"), Scalar((v, "in")), Scalar(q, v), Scalar.CreateWithQuantity(q, v)]
+                ar = [Array([v, w], "in"), Array([v, w], "in", c), Array(c, [v, w], "in"), Array(q, [v, w]), Array.CreateWithQuantity(q, [v, w])]
+                fr = [FractionScalar(v, "in"), FractionScalar(v, "in", c), FractionScalar(q, v)]
+                return {"c": c, "scalar": _all_equal(sc), "array": _all_equal(ar), "fraction": _all_equal(fr), "cats": [o.GetCategory() for o in sc + ar + fr],
+                        "repr_ok": eval(repr(sc[0]), dict({k_: v_ for k_, v_ in core._REGISTRY.items() if isinstance(k_, str)}, Scalar=Scalar)) == sc[1]}
         if cfg["k"] == "cat_fractional_default":
             # a category whose default value has a fractional part (all stock categories default to 0)
             db.AddCategory("c19 frac", "length", default_unit="in", default_value=v)
@@ -213,6 +252,10 @@ def props(cfg, T, obs):
         return [("a unit without any default category is rejected with UnitsError, not built inconsistently", obs["nocat_exc"] in ("UnitsError", "InvalidUnitError", "InvalidQuantityTypeError"))]
     if cfg["k"] == "aux_exotic_values":
         return [("auxiliary, concrete (not solver-decided): amounts that are not floats (big ints, Decimal, Fraction, bool, numpy scalars) build equal Scalars holding a float in every form", obs["aux_bad"] == [])]
+    if cfg["k"] == "history":
+        return [("whatever happened to the database object before (the default category registered later than the unit, Clear() and a new configuration), every form builds equal objects of the "
+                 "unit's CURRENT default category", obs["c"] == "pipe diameter" and obs["scalar"] == [] and obs["array"] == [] and obs["fraction"] == []
+                 and all(c == obs["c"] for c in obs["cats"]) and bool(obs["repr_ok"]))]
     if cfg["k"] == "cat_fractional_default":
         return [("a category with an arbitrary (fractional) default value: the object built from the category alone equals the one built from default value and unit, every class",
                  obs["scalar"] == [] and obs["fraction"] == [] and obs["array"] == [] and obs["fixed"] == [] and obs["unit"][0] == obs["unit"][1])]
